@@ -294,7 +294,10 @@ def decode_log(line):
 def process_failures(R, logs, fails, max_shrinks):
     """shrink, confirm and sign the failures; returns the oracle failure records for standard_verdict."""
     out, seen = [], {}
-    n = 0
+    per_dim = {}
+    # dimensions in which a finding is already known go last and every dimension has its own budget,
+    # so that known findings cannot use up the shrinking budget of a new one
+    fails = sorted(fails, key=lambda f: 1 if f["dim"] in ("syncer-replay", "restore") else 0)
     for f in fails:
         if f["dim"] in ("missing", "runerr"):
             out.append(dict(name="%s-%s" % (f["dim"], f["log"]), case=dict(log=f["log"], detail=f["what"]),
@@ -304,9 +307,9 @@ def process_failures(R, logs, fails, max_shrinks):
         if key in seen:
             continue
         seen[key] = 1
-        if n >= max_shrinks:
+        if per_dim.get(f["dim"], 0) >= max_shrinks:
             continue
-        n += 1
+        per_dim[f["dim"]] = per_dim.get(f["dim"], 0) + 1
         L = logs[f["log"]]
         tag = "%s-%s" % (f["log"], f["dim"])
         lines, names = R.shrink(L, f["a"], f["b"], f["kind"], tag)
@@ -401,7 +404,7 @@ def run(ctx):
                 stats[k] += s1[k]
             for k, v in s1["by_dim"].items():
                 stats["by_dim"][k] = stats["by_dim"].get(k, 0) + v
-        all_fail += process_failures(R, logs, fails, 6 if quick else 20)
+        all_fail += process_failures(R, logs, fails, 3 if quick else 8)
         hb, hs = check_noabort_hypothesis(os.path.join(d, "cases.tsv"))
         stats["noabort_checked"] = stats.get("noabort_checked", 0) + hs
         for vid, name, r in hb[:3]:
@@ -454,7 +457,7 @@ def run(ctx):
         logs, order = parse_cases(os.path.join(d, "cases.tsv"))
         obs = parse_obs(os.path.join(d, "obs.out"))
         fails, _ = judge(logs, order, obs)
-        return process_failures(R, logs, fails, 6)
+        return process_failures(R, logs, fails, 4)
 
     vlib.standard_verdict(ctx, proofs_ok, all_mism, all_fail, search_fn=search,
                           corr_name="Determ/Model.v (batching logic of ApplyRaftRequest / kvbatchOperator) vs the calls the real "
